@@ -99,6 +99,8 @@ KeySet == Toks \X (0 .. NSec - 1)
 \* row by row in stage "build" (so TLC enumerates them in parallel) and then
 \* started.
 Sorted(s) == s \in {"asc", "desc"}
+\* rows are in pool order on the primary key
+LakeSorted(rows, desc) == \A i \in 1..(Len(rows) - 1) : SCmp(rows[i].key[1], rows[i + 1].key[1], desc) <= 0
 Seeds == {[src |-> s, mode |-> m, limit |-> l, keys |-> << >>, bat |-> << >>, b2 |-> x] :
              s \in Srcs, m \in Modes, l \in Limits, x \in {1, 2}}
 ValidSeed(c) == /\ (c.b2 = 2 => c.mode = "partials" /\ Sorted(c.src))
@@ -224,7 +226,10 @@ Start ==
   /\ stage' = IF cs.mode = "partials" THEN "leg0" ELSE "final"
   /\ inp' = IF cs.mode = "partials" THEN LegInput(cs, 0) ELSE DirectInput(cs)
   /\ legref' = IF cs.mode = "partials" THEN <<Concat(LegInput(cs, 0)), Concat(LegInput(cs, 1))>> ELSE legref
-  /\ UNCHANGED <<cs, cur, inb, table, maxT, maxS, runs, spilled, lastP, out, legout, spl, taint, crash>>
+  \* known defect: `sort -r k` delivers nulls last, but for a descending input
+  \* valueCompare / keysComparator (nulls max, operands swapped) expect them first
+  /\ taint' = IF cs.src = "sortdesc" /\ ~LakeSorted(DirectInput(cs)[1], TRUE) THEN {"descnulls"} ELSE {}
+  /\ UNCHANGED <<cs, cur, inb, table, maxT, maxS, runs, spilled, lastP, out, legout, spl, crash>>
 
 \* ------------------------------------------------------------- spilling
 RECURSIVE InsK(_, _, _)
@@ -280,13 +285,10 @@ ReadSpills(rs, ms, desc, eof) ==
              r == ReadSpills(g.rest, ms, desc, eof)
          IN [em |-> {g.row} \cup r.em, rs |-> r.rs, crash |-> r.crash]
 
-\* ghost: a release of key p is justified by the declared order iff the input
-\* has already moved strictly past p's position in that order.
-\* (For `sort` upstream the physical order is the sort operator's.)
-Justified(p) ==
-  /\ lastP # NONE
-  /\ IF cs.src \in {"sortasc", "sortdesc"} THEN SortOpRank(p, Desc) < SortOpRank(lastP, Desc)
-     ELSE SCmp(p, lastP, Desc) < 0
+\* ghost: a release of key p before the end of input is justified by the
+\* declared order iff the input has already moved strictly past p's position
+\* in that order (the order is on the primary key only).
+Justified(p) == lastP # NONE /\ SCmp(p, lastP, Desc) < 0
 
 TaintOfRows(em) == IF \E r \in em : Cardinality(r.ids) > 1 THEN {"merge"} ELSE {}
 TaintOfRelease(em) == IF \E r \in em : \E k \in r.ids : ~Justified(k[1]) THEN {"release"} ELSE {}
@@ -424,10 +426,12 @@ Final ==
   (stage = "done" /\ taint = {}) => {r.rep : r \in Emitted} = KeysIn(RowsOf(cs))
 
 \* the taints are exactly the known defect classes: nothing else may break
-TaintsKnown == taint \subseteq {"merge", "release", "nilmaxspill"}
+TaintsKnown == taint \subseteq {"merge", "release", "nilmaxspill", "descnulls"}
 \* "merge" needs two distinct keys that the comparator deems equal;
 \* "release"/"nilmaxspill" need a missing key next to a null key or a spill.
 TaintJustified ==
   /\ "merge" \in taint => \E i, j \in 1..Len(cs.keys) : cs.keys[i] # cs.keys[j] /\ KCmp(cs.keys[i], cs.keys[j], FALSE) = 0
-  /\ (taint \cap {"release", "nilmaxspill"}) # {} => \E i \in 1..Len(cs.keys) : cs.keys[i][1] = "MISS"
+  /\ (taint \cap {"release", "nilmaxspill"}) # {} => "descnulls" \in taint \/ \E i \in 1..Len(cs.keys) : cs.keys[i][1] = "MISS"
+  /\ "descnulls" \in taint => /\ cs.src = "sortdesc"
+                              /\ \E i, j \in 1..Len(cs.keys) : SRank(cs.keys[i][1]) = 6 /\ SRank(cs.keys[j][1]) # 6
 =============================================================================
